@@ -8,7 +8,12 @@
 //! and marker offset (Trace_Diag / SyltDiag!LineOf).
 //! Negative controls: C15_STUB=line1 pretends the implementation reports every error on line 1;
 //! C15_STUB=f1 re-creates the tokenizer regression fixed by e1d1e87 (newlines inside string literals are
-//! not counted, so everything after a multi-line literal is reported too early).
+//! not counted, so everything after a multi-line literal is reported too early);
+//! C15_STUB=lines counts a literal's newlines the way `str::lines()` does (a literal whose content ends with a
+//! newline is counted one line short); C15_STUB=xfile relates line numbers of different files when it orders the
+//! two introductions of a colliding imported name (the name's own definition wins when it stands on a later line
+//! number than the colliding import statement).
+//! `cross` renders only the cases named by C15_SHAPES / C15_KINDS / C15_FILES (comma lists) when these are set.
 
 use rand::{Rng, SeedableRng};
 use serde_json::{json, Value};
@@ -18,16 +23,67 @@ use vharness::project::{compile, CompileResult, Project};
 use vharness::util::*;
 
 // index order must equal SyltDiag!Kinds / Files / Poss / Shapes
-const KINDS: [&str; 14] = [
+const KINDS: [&str; 18] = [
     "syn_rparen", "syn_char", "unresolved", "dup_global", "const_local", "const_global", "const_param",
     "op_mismatch", "arg_mismatch", "annot_mismatch", "break_outside", "conflict", "dup_import", "dup_from_import",
+    "dup_use_use", "dup_from_from", "dup_from_use", "dup_use_from",
 ];
 const FILES: [&str; 3] = ["main", "sibling", "sub"];
 const POSS: [&str; 5] = ["top_first", "top_mid", "top_last", "fn_body", "if_branch"];
-const SHAPES: [&str; 9] = [
+const BASE_SHAPES: [&str; 9] = [
     "none", "ascii_comment", "nonascii_comment", "nonascii_string", "ml_string2", "ml_string3", "blank_lines",
     "crlf", "tabs",
 ];
+// string literals spanning lines: content x place (SyltDiag!Contents / StrPlaces / StrText)
+const CONTENTS: [(&str, &str); 9] = [
+    ("two", "first\nsecond"),
+    ("three", "first\nsecond\nthird"),
+    ("endnl", "first\n"),
+    ("startnl", "\nsecond"),
+    ("onlynl", "\n\n"),
+    ("blankmid", "first\n\nthird"),
+    ("endnl2", "first\n\n"),
+    ("crlfmid", "first\r\nsecond"),
+    ("crlfend", "first\r\n"),
+];
+const STR_PLACES: [&str; 3] = ["init", "arg", "stmt"];
+const COMBO_SHAPES: [&str; 5] = ["cmt_endnl", "cmt_startnl", "cmt_onlynl", "endnl_cmt", "nonascii_endnl"];
+const RELS: [&str; 3] = ["def_earlier", "def_equal", "def_later"];
+const CMT: &str = "// a plain comment: x :: ) $ break";
+
+/// SyltDiag!Shapes: the older shapes, then str_<content>_<place> (place slowest; (two|three, init) are the older
+/// ml_string2 / ml_string3), then the comment combinations.
+fn shapes() -> Vec<String> {
+    let mut v: Vec<String> = BASE_SHAPES.iter().map(|s| s.to_string()).collect();
+    for pl in STR_PLACES.iter() {
+        for (ct, _) in CONTENTS.iter() {
+            if !(*pl == "init" && (*ct == "two" || *ct == "three")) {
+                v.push(format!("str_{}_{}", ct, pl));
+            }
+        }
+    }
+    v.extend(COMBO_SHAPES.iter().map(|s| s.to_string()));
+    v
+}
+
+fn content(ct: &str) -> &'static str {
+    CONTENTS.iter().find(|(c, _)| *c == ct).map(|(_, t)| *t).unwrap_or_else(|| tool_error("unknown string content"))
+}
+
+/// SyltDiag!WrapStr: a string literal in one of the places a string can stand.
+fn wrap_str(pl: &str, s: &str, n: usize, top: bool) -> String {
+    match (pl, top) {
+        ("init", _) => format!("s{} :: \"{}\"", n, s),
+        ("arg", _) => format!("s{} :: sid(\"{}\")", n, s),
+        ("stmt", true) => format!("sf{} :: fn do \"{}\" end", n, s),
+        ("stmt", false) => format!("\"{}\"", s),
+        _ => tool_error("unknown string place"),
+    }
+}
+
+fn is_from_kind(kind: &str) -> bool {
+    matches!(kind, "dup_from_import" | "dup_from_from" | "dup_from_use" | "dup_use_from")
+}
 
 fn path_of(file: &str) -> &'static str {
     match file {
@@ -41,12 +97,13 @@ fn is_top(pos: &str) -> bool {
     pos.starts_with("top_")
 }
 
-fn applicable(kind: &str, pos: &str) -> bool {
-    match kind {
-        "dup_global" | "dup_import" | "dup_from_import" => is_top(pos), // a global can only be defined at the top level
+fn applicable(kind: &str, pos: &str, rel: &str) -> bool {
+    (match kind {
+        // a global can only be defined, a module only be imported at the top level
+        k if k.starts_with("dup_") => is_top(pos),
         "const_local" => !is_top(pos), // a one-line function cannot hold a definition and an assignment
         _ => true,
-    }
+    }) && (rel == "def_earlier" || is_from_kind(kind)) // the layout of the imported modules only matters to name imports
 }
 
 /// The planted construct's spelling. Statement kinds cannot stand at the top level (only definitions can):
@@ -71,20 +128,34 @@ fn construct(kind: &str, top: bool) -> &'static str {
         ("conflict", _) => "<<<<<<< HEAD",
         ("dup_import", _) => "leaf :: 7",
         ("dup_from_import", _) => "lw :: 7",
+        ("dup_use_use", _) => "use /twin as leaf",
+        ("dup_from_from", _) => "from /twin use lv as lw",
+        ("dup_from_use", _) => "from /twin use lv as leaf",
+        ("dup_use_from", _) => "use /twin as lw",
         _ => tool_error("unknown kind"),
     }
 }
 
-/// One preceding-text shape as source lines (SyltDiag!ShapeLine shows TLC the '@'-abstraction of these).
-fn shape_line(shape: &str, n: usize) -> Option<String> {
+/// One preceding-text shape as source lines (SyltDiag!ShapeLines shows TLC the '@'-abstraction of these);
+/// a "line" holds the newlines of its literal. `top`: written at the top level.
+fn shape_lines(shape: &str, n: usize, top: bool) -> Option<Vec<String>> {
     Some(match shape {
-        "ascii_comment" => "// a plain comment: x :: ) $ break".to_string(),
-        "nonascii_comment" => "// kommentar åäö → ✓ 日本".to_string(),
-        "nonascii_string" => format!("s{} :: \"grüße → ✓ 日本\"", n),
-        "ml_string2" => format!("s{} :: \"first\nsecond\"", n),
-        "ml_string3" => format!("s{} :: \"first\nsecond\nthird\"", n),
-        "blank_lines" => "\n".to_string(),
-        _ => return None,
+        "ascii_comment" => vec![CMT.to_string()],
+        "nonascii_comment" => vec!["// kommentar åäö → ✓ 日本".to_string()],
+        "nonascii_string" => vec![format!("s{} :: \"grüße → ✓ 日本\"", n)],
+        "ml_string2" => vec![wrap_str("init", content("two"), n, top)],
+        "ml_string3" => vec![wrap_str("init", content("three"), n, top)],
+        "blank_lines" => vec!["\n".to_string()],
+        "cmt_endnl" => vec![CMT.to_string(), wrap_str("init", content("endnl"), n, top)],
+        "cmt_startnl" => vec![CMT.to_string(), wrap_str("init", content("startnl"), n, top)],
+        "cmt_onlynl" => vec![CMT.to_string(), wrap_str("init", content("onlynl"), n, top)],
+        "endnl_cmt" => vec![format!("{} // trailing: x :: ) $", wrap_str("init", content("endnl"), n, top))],
+        "nonascii_endnl" => vec![format!("s{} :: \"grüße → ✓ 日本\n\"", n)],
+        _ => {
+            let rest = shape.strip_prefix("str_")?;
+            let (ct, pl) = rest.split_once('_')?;
+            vec![wrap_str(pl, content(ct), n, top)]
+        }
     })
 }
 
@@ -143,6 +214,7 @@ fn template(file: &str, depth: usize, inserts: &[(Place, Line)]) -> Vec<Line> {
     }
     out.push(ln(0, "ga :: 1"));
     out.push(ln(0, "gb := leaf.lv + lw"));
+    out.push(ln(0, "sid :: fn s: str -> str do ret s end"));
     put(&mut out, Place::TopMid, 0);
     out.push(ln(0, "helper :: fn a: int, b: int -> int do"));
     out.push(ln(1, "c :: a + b"));
@@ -210,6 +282,8 @@ struct Case {
     depth: usize,
     /// label of the preceding-text shape ("stack" for the random variations)
     shape: String,
+    /// layout of leaf.sy / twin.sy: line of their definition of lv relative to the colliding `from .. use`
+    rel: String,
     /// (place name, nesting depth of that place, shape) in file order per place
     shapes: Vec<(String, String)>,
     crlf: bool,
@@ -217,13 +291,16 @@ struct Case {
 }
 
 fn case_at(idx: usize) -> Case {
-    // same mixed-radix layout as SyltDiag!Case: kind fastest, then file, position, shape
+    // same mixed-radix layout as SyltDiag!Case: kind fastest, then file, position, shape, rel
+    let sh = shapes();
     let m = idx - 1;
-    let kind = KINDS[m % 14];
-    let file = FILES[(m / 14) % 3];
-    let pos = POSS[(m / 42) % 5];
-    let shape = SHAPES[(m / 210) % 9];
-    let shapes = if shape_line(shape, 1).is_some() { vec![(pos.to_string(), shape.to_string())] } else { vec![] };
+    let (nk, nf, np, ns) = (KINDS.len(), FILES.len(), POSS.len(), sh.len());
+    let kind = KINDS[m % nk];
+    let file = FILES[(m / nk) % nf];
+    let pos = POSS[(m / (nk * nf)) % np];
+    let shape = sh[(m / (nk * nf * np)) % ns].as_str();
+    let rel = RELS[(m / (nk * nf * np * ns)) % RELS.len()];
+    let shapes = if shape_lines(shape, 1, true).is_some() { vec![(pos.to_string(), shape.to_string())] } else { vec![] };
     Case {
         idx,
         kind: kind.into(),
@@ -231,17 +308,20 @@ fn case_at(idx: usize) -> Case {
         pos: pos.into(),
         depth: 0,
         shape: shape.into(),
+        rel: rel.into(),
         shapes,
         crlf: shape == "crlf",
         tabs: shape == "tabs",
     }
 }
 
-const N_CROSS: usize = 14 * 3 * 5 * 9;
+fn n_cross() -> usize {
+    KINDS.len() * FILES.len() * POSS.len() * shapes().len() * RELS.len()
+}
 
 fn case_json(c: &Case) -> Value {
     json!({"idx": c.idx, "kind": c.kind, "file": c.file, "pos": c.pos, "depth": c.depth, "shape": c.shape,
-           "shapes": c.shapes, "crlf": c.crlf, "tabs": c.tabs})
+           "rel": c.rel, "shapes": c.shapes, "crlf": c.crlf, "tabs": c.tabs})
 }
 
 fn case_from_json(v: &Value) -> Case {
@@ -253,6 +333,7 @@ fn case_from_json(v: &Value) -> Case {
         pos: s("pos"),
         depth: v["depth"].as_u64().unwrap_or(0) as usize,
         shape: s("shape"),
+        rel: v["rel"].as_str().unwrap_or("def_earlier").to_string(),
         shapes: v["shapes"]
             .as_array()
             .map(|a| a.iter().map(|p| (p[0].as_str().unwrap().to_string(), p[1].as_str().unwrap().to_string())).collect())
@@ -268,6 +349,33 @@ struct Rendered {
     path: String,
     text: String,
     marker: usize,
+    leaf: String,
+    twin: String,
+    /// line on which leaf.sy and twin.sy define lv
+    def_line: usize,
+}
+
+/// Line of the colliding name import of a FromKinds case: the last line that spells one of the kind's
+/// `from .. use` introductions (SyltDiag!RefPos).
+fn last_from_line(kind: &str, text: &str) -> usize {
+    let spellings: &[&str] = match kind {
+        "dup_from_import" | "dup_use_from" => &["from /leaf use lv as lw"],
+        "dup_from_from" => &["from /leaf use lv as lw", "from /twin use lv as lw"],
+        "dup_from_use" => &["from /twin use lv as leaf"],
+        _ => &[],
+    };
+    let mut at = 0;
+    for (i, l) in text.split('\n').enumerate() {
+        if spellings.contains(&l.trim_matches(|c| c == ' ' || c == '\t' || c == '\r')) {
+            at = i + 1;
+        }
+    }
+    at
+}
+
+/// A module defining lv on line `line` (padded with comment lines).
+fn module_text(line: usize, value: usize) -> String {
+    format!("{}lv :: {}\n", "//p\n".repeat(line - 1), value)
 }
 
 fn render(c: &Case) -> Rendered {
@@ -275,8 +383,10 @@ fn render(c: &Case) -> Rendered {
     let top = is_top(&c.pos);
     let mut inserts: Vec<(Place, Line)> = Vec::new();
     for (n, (pl, sh)) in c.shapes.iter().enumerate() {
-        let text = shape_line(sh, n + 1).unwrap_or_else(|| tool_error("shape without a line"));
-        inserts.push((place_of(pl, c.depth), Line { level: 0, text, planted: false }));
+        let lines = shape_lines(sh, n + 1, is_top(pl)).unwrap_or_else(|| tool_error("shape without a line"));
+        for text in lines {
+            inserts.push((place_of(pl, c.depth), Line { level: 0, text, planted: false }));
+        }
     }
     let base_inserts = inserts.clone();
     inserts.push((place_of(&c.pos, c.depth), Line { level: 0, text: construct(&c.kind, top).to_string(), planted: true }));
@@ -299,8 +409,21 @@ fn render(c: &Case) -> Rendered {
             base.insert(p, t);
         }
     }
-    planted.insert("leaf.sy".to_string(), "lv :: 2\n".to_string());
-    base.insert("leaf.sy".to_string(), "lv :: 2\n".to_string());
+    // the modules names are imported from: lv is defined on a line number earlier than / equal to / later than
+    // the line number of the colliding `from .. use` statement in the planted file (TLC re-checks: SyltDiag!RelOK)
+    let def_line = match (is_from_kind(&c.kind), c.rel.as_str()) {
+        (true, "def_equal") => last_from_line(&c.kind, &text),
+        (true, "def_later") => last_from_line(&c.kind, &text) + 2,
+        _ => 1,
+    };
+    if def_line == 0 || def_line == 2 && c.rel == "def_later" {
+        tool_error("no name import in a from-import case");
+    }
+    let (leaf, twin) = (module_text(def_line, 2), module_text(def_line, 3));
+    for prj in [&mut planted, &mut base] {
+        prj.insert("leaf.sy".to_string(), leaf.clone());
+        prj.insert("twin.sy".to_string(), twin.clone());
+    }
     if marker == 0 {
         tool_error("planted line was not rendered");
     }
@@ -310,6 +433,9 @@ fn render(c: &Case) -> Rendered {
         path: path_of(&c.file).to_string(),
         text,
         marker,
+        leaf,
+        twin,
+        def_line,
     }
 }
 
@@ -331,22 +457,29 @@ fn run_case(c: &Case) -> (Value, Value) {
     if stub.as_deref() == Some("line1") && eline > 0 {
         eline = 1;
     }
-    if stub.as_deref() == Some("f1") && eline > 0 && efile == r.path {
-        // the regression fixed by e1d1e87: newlines inside string literals are not counted
-        let mut in_str = false;
+    let (mut efile, mut eline) = (efile, eline);
+    if matches!(stub.as_deref(), Some("f1") | Some("lines")) && eline > 0 && efile == r.path {
+        // f1: the regression fixed by e1d1e87, newlines inside string literals are not counted;
+        // lines: they are counted with str::lines(), which drops a trailing empty line
+        let before: String = r.text.chars().take(r.marker - 1).collect();
         let mut lost = 0;
-        for ch in r.text.chars().take(r.marker - 1) {
-            if ch == '"' {
-                in_str = !in_str;
-            } else if ch == '\n' && in_str {
-                lost += 1;
+        for (i, piece) in before.split('"').enumerate() {
+            // the templates hold no quotes outside string literals: odd pieces are literal contents
+            if i % 2 == 1 {
+                let real = piece.matches('\n').count();
+                lost += if stub.as_deref() == Some("f1") { real } else { real - piece.lines().count().saturating_sub(1).min(real) };
             }
         }
         eline = eline.saturating_sub(lost).max(1);
     }
+    if stub.as_deref() == Some("xfile") && eline > 0 && is_from_kind(&c.kind) && c.rel == "def_later" {
+        // line numbers related across files: the imported name's own definition "is written later"
+        efile = "leaf.sy".to_string();
+        eline = r.def_line;
+    }
     let trace = json!({
-        "idx": c.idx, "kind": c.kind, "file": c.file, "pos": c.pos, "shape": c.shape,
-        "path": r.path, "text": abs(&r.text), "marker": r.marker,
+        "idx": c.idx, "kind": c.kind, "file": c.file, "pos": c.pos, "shape": c.shape, "rel": c.rel,
+        "path": r.path, "text": abs(&r.text), "marker": r.marker, "leaf": r.leaf, "twin": r.twin,
         "base_ok": base_res.is_ok(), "res": res.class(), "efile": efile, "eline": eline,
     });
     let base_err = match &base_res {
@@ -382,12 +515,12 @@ fn place_rank(p: &str) -> usize {
 /// optionally CRLF and/or tab indentation, planting up to three ifs deeper.
 fn free_case(idx: usize, rng: &mut rand::rngs::StdRng) -> Case {
     const PL: [&str; 6] = ["top_first", "top_mid", "top_last", "fn_body", "if_branch", "nested"];
-    const LINE_SHAPES: [&str; 6] =
-        ["ascii_comment", "nonascii_comment", "nonascii_string", "ml_string2", "ml_string3", "blank_lines"];
+    let line_shapes: Vec<String> = shapes().into_iter().filter(|s| shape_lines(s, 1, true).is_some()).collect();
     loop {
         let kind = KINDS[rng.gen_range(0..KINDS.len())];
         let pos = PL[rng.gen_range(0..PL.len())];
-        if !applicable(kind, pos) {
+        let rel = if is_from_kind(kind) { RELS[rng.gen_range(0..RELS.len())] } else { RELS[0] };
+        if !applicable(kind, pos, rel) {
             continue;
         }
         let depth = if pos == "nested" { rng.gen_range(1..4) } else { rng.gen_range(0..3) };
@@ -396,7 +529,7 @@ fn free_case(idx: usize, rng: &mut rand::rngs::StdRng) -> Case {
             let cands: Vec<&str> =
                 PL.iter().copied().filter(|p| place_rank(p) <= place_rank(pos) && (*p != "nested" || depth > 0)).collect();
             let pl = cands[rng.gen_range(0..cands.len())];
-            shapes.push((pl.to_string(), LINE_SHAPES[rng.gen_range(0..LINE_SHAPES.len())].to_string()));
+            shapes.push((pl.to_string(), line_shapes[rng.gen_range(0..line_shapes.len())].clone()));
         }
         return Case {
             idx,
@@ -405,11 +538,16 @@ fn free_case(idx: usize, rng: &mut rand::rngs::StdRng) -> Case {
             pos: pos.into(),
             depth,
             shape: "stack".into(),
+            rel: rel.into(),
             shapes,
             crlf: rng.gen_range(0..4) == 0,
             tabs: rng.gen_range(0..4) == 0,
         };
     }
+}
+
+fn env_list(name: &str) -> Option<Vec<String>> {
+    std::env::var(name).ok().filter(|v| !v.is_empty()).map(|v| v.split(',').map(|x| x.to_string()).collect())
 }
 
 fn load_dir(root: &Path, rel: &str, files: &mut BTreeMap<String, String>) {
@@ -441,7 +579,13 @@ fn main() {
     }
     match args[1].as_str() {
         "cross" => {
-            let cases: Vec<Case> = (1..=N_CROSS).map(case_at).filter(|c| applicable(&c.kind, &c.pos)).collect();
+            let (only_s, only_k, only_f) = (env_list("C15_SHAPES"), env_list("C15_KINDS"), env_list("C15_FILES"));
+            let keep = |l: &Option<Vec<String>>, v: &String| l.as_ref().map_or(true, |l| l.contains(v));
+            let cases: Vec<Case> = (1..=n_cross())
+                .map(case_at)
+                .filter(|c| applicable(&c.kind, &c.pos, &c.rel))
+                .filter(|c| keep(&only_s, &c.shape) && keep(&only_k, &c.kind) && keep(&only_f, &c.file))
+                .collect();
             emit(&cases, &args[2], &args[3]);
         }
         "free" => {
